@@ -403,5 +403,74 @@ def item_c01_sensor_grid(repo, out):
         out.append('Definition sensor_grid_%s : Z * list (Z * Z) := (%s, %s).' % (ver, coq_Z(rows[ver][0]), rows[ver][1]))
 
 
+def _name_binds(init, name):
+    return [n for n in ast.walk(init) if isinstance(n, (ast.Assign, ast.AugAssign)) and name in _targets(n)]
+
+
+def item_c01_construction_grid(repo, out):
+    """The time array the sensor cache holds WHILE __init__ partitions the data set into scans (sensors extracted then
+    keep that alignment): v1 / v2 the estimate first + dump_period * arange(num_dumps) when the "quick test for uniform
+    spacing" |expected_dumps - num_dumps| < threshold passes, else the real timestamps (code 3 + threshold);
+    v3 / v4 the final array (code 2)."""
+    rows = {}
+    est = {'v1': 'data_timestamps=data_timestamps[0]+self.dump_period*np.arange(num_dumps)',
+           'v2': 'data_timestamps=self._timestamps[0]+self.dump_period*np.arange(num_dumps)'}
+    real = {'v1': 'data_timestamps=data_timestamps[:]', 'v2': 'data_timestamps=self._timestamps[:num_dumps]'}
+    for ver, cname in (('v1', 'H5DataV1'), ('v2', 'H5DataV2')):
+        rel = 'katdal/h5data%s.py' % ver
+        cls = _class(_parse(repo, rel), cname, rel)
+        call, final, at, init = _grid_statements(cls, cname)
+        if _norm(call.args[1]) != 'data_timestamps':
+            raise TranslateError('%s.__init__: SensorCache is built on %s' % (cname, ast.unparse(call.args[1])[:60]))
+        ctor_at = [i for i, n in enumerate(init.body) if isinstance(n, ast.Assign) and n.value is call][0]
+        ifs = [n for n in init.body[:ctor_at] if isinstance(n, ast.If) and est[ver] in [_norm(m) for m in n.body]]
+        if len(ifs) != 1 or len(ifs[0].body) != 1 or not ifs[0].orelse or _norm(ifs[0].orelse[0]) != real[ver]:
+            raise TranslateError('%s.__init__: estimated / real timestamps branch not of the expected shape' % cname)
+        test = ifs[0].test
+        tops = [_norm(n) for n in init.body[:ctor_at]]
+        if ver == 'v1':
+            need = ['data_timestamps=self.timestamps']
+            if not (isinstance(test, ast.Compare) and len(test.ops) == 1 and isinstance(test.ops[0], ast.Lt) and _norm(
+                    test.left) == 'abs((data_timestamps[-1]-data_timestamps[0])/self.dump_period+1-num_dumps)'):
+                raise TranslateError('H5DataV1.__init__: quick test is %s' % ast.unparse(test)[:80])
+            thr = test.comparators[0]
+            nbind = 3
+        else:
+            if _norm(test) != 'notirregularorquicklook':
+                raise TranslateError('H5DataV2.__init__: branch test is %s' % ast.unparse(test)[:80])
+            irr = [n for n in init.body[:ctor_at] if isinstance(n, ast.Assign) and _targets(n) == ['irregular']]
+            if len(irr) != 1 or len(_name_binds(init, 'irregular')) != 1 or not (
+                    isinstance(irr[0].value, ast.Compare) and len(irr[0].value.ops) == 1
+                    and isinstance(irr[0].value.ops[0], ast.GtE) and _norm(irr[0].value.left) == 'abs(expected_dumps-num_dumps)'):
+                raise TranslateError('H5DataV2.__init__: irregular is not abs(expected_dumps - num_dumps) >= threshold')
+            thr = irr[0].value.comparators[0]
+            need = ['expected_dumps=(self._timestamps[num_dumps-1]-self._timestamps[0])/self.dump_period+1',
+                    'data_timestamps+=0.5*self.dump_period+self.time_offset']
+            args = _func(cls, '__init__', rel).args
+            names = [a.arg for a in args.args]
+            dflt = dict(zip(names[len(names) - len(args.defaults):], args.defaults))
+            if 'quicklook' not in dflt or _norm(dflt['quicklook']) != 'False':
+                raise TranslateError('H5DataV2.__init__: quicklook does not default to False')
+            nbind = 3
+        for x in need:
+            if x not in tops:
+                raise TranslateError('%s.__init__: missing %s' % (cname, x))
+        if len(_name_binds(init, 'data_timestamps')) != nbind:
+            raise TranslateError('%s.__init__: data_timestamps is bound %d times' % (cname, len(_name_binds(init, 'data_timestamps'))))
+        if not (isinstance(thr, ast.Constant) and isinstance(thr.value, float)):
+            raise TranslateError('%s.__init__: threshold of the quick test is not a literal' % cname)
+        f = Fraction(str(thr.value))
+        rows[ver] = '(%s, (%s, %s))' % (coq_Z(3), coq_Z(f.numerator), coq_Z(f.denominator))
+    for ver, rel, cname, arr in (('v3', 'katdal/h5datav3.py', 'H5DataV3', 'self._timestamps'),
+                                 ('v4', 'katdal/visdatav4.py', 'VisibilityDataV4', 'source.timestamps')):
+        cls = _class(_parse(repo, rel), cname, rel)
+        call, final, at, init = _grid_statements(cls, cname)
+        if _norm(call.args[1]) != arr or final is not call.args[1]:
+            raise TranslateError('%s.__init__: SensorCache is built on %s' % (cname, ast.unparse(call.args[1])[:60]))
+        rows[ver] = '(%s, (%s, %s))' % (coq_Z(2), coq_Z(0), coq_Z(1))
+    for ver in ('v1', 'v2', 'v3', 'v4'):
+        out.append('Definition construction_grid_%s : Z * (Z * Z) := %s.' % (ver, rows[ver]))
+
+
 ITEMS = [item_c01_attrs, item_c01_tconv, item_c01_conj, item_c01_weight_names, item_c01_snapshot,
-         item_c01_sensor_grid]
+         item_c01_sensor_grid, item_c01_construction_grid]
